@@ -130,6 +130,11 @@ type Output struct {
 	Findings []Finding  `json:"findings"`
 	Samples  [][]string `json:"samples"`
 	Hang     *Finding   `json:"hang,omitempty"`
+	// conformance leg: explorer traces replayed through the real ABCI pipeline
+	ConformOK     int      `json:"conform_ok"`
+	ConformSteps  int      `json:"conform_steps"`
+	ConformBlocks int64    `json:"conform_blocks"`
+	ConformErrs   []string `json:"conform_errs,omitempty"`
 }
 
 // ---------------------------------------------------------------------------------------------
@@ -147,6 +152,8 @@ type Explorer struct {
 	findings map[string]Finding
 	stats    Stats
 	samples  [][]string
+	ConfWant int          // number of traces to keep for the conformance leg
+	confCand [][]string   // [root, labels...]
 	subtree  int
 	root     string
 	trace    []string
@@ -256,6 +263,9 @@ func Apply(w *world.World, f *world.Flat, ctx sdk.Context, write func(), op *Op,
 			defer func() {
 				if r := recover(); r != nil {
 					halt = fmt.Sprint(r)
+					if strings.HasPrefix(halt, "HARNESS") {
+						panic(r) // a harness self-check failed: never a verdict about the repository
+					}
 				}
 			}()
 			h := f.H
@@ -372,6 +382,45 @@ func (e *Explorer) Run() Output {
 	return out
 }
 
+// keepForConformance keeps maximal traces that differ early (distinct second operation) and contain a block advance.
+func (e *Explorer) keepForConformance() {
+	if len(e.confCand) >= e.ConfWant {
+		return
+	}
+	hasEnd := false
+	for _, l := range e.trace {
+		if strings.HasPrefix(l, "end@") {
+			hasEnd = true
+		}
+	}
+	if !hasEnd {
+		return
+	}
+	for _, c := range e.confCand {
+		if len(c) > 3 && len(e.trace) > 2 && c[0] == e.root && c[1] == e.trace[0] && c[2] == e.trace[1] && c[3] == e.trace[2] {
+			return
+		}
+	}
+	e.confCand = append(e.confCand, append([]string{e.root}, e.trace...))
+}
+
+// RunConformance replays the kept traces through the real ABCI pipeline.
+func (e *Explorer) RunConformance(out *Output) {
+	for _, c := range e.confCand {
+		if time.Now().After(e.Deadline) {
+			break
+		}
+		steps, blocks, err := Conform(e.Sc, c[0], c[1:])
+		out.ConformSteps += steps
+		out.ConformBlocks += blocks
+		if err != nil {
+			out.ConformErrs = append(out.ConformErrs, fmt.Sprintf("%s %v: %v", e.Sc.ID, c, err))
+		} else {
+			out.ConformOK++
+		}
+	}
+}
+
 func (e *Explorer) mine(level int) bool {
 	// levels above the split level are walked by every shard but counted by shard 0 only
 	return level > e.SplitLvl || e.Shard == 0
@@ -400,6 +449,9 @@ func (e *Explorer) dfs(s *State, remaining int) {
 	if remaining == 0 {
 		if len(e.samples) < 3 && level >= 3 && e.mine(level) {
 			e.samples = append(e.samples, append([]string{e.root}, e.trace...))
+		}
+		if level == e.Sc.Depth && e.mine(level) {
+			e.keepForConformance()
 		}
 		return
 	}
